@@ -68,6 +68,32 @@ def gen_str(rng, mode):
     return s
 
 
+OTHER_TYPES = ["b", "d", "ts", "bin", "li", "fv", "st"]
+DAYS = [0, -1, 1, 18262, 19000, -25567, 2932896, 2932897, -719162, -719163, 11016, 59]
+MICROS = [0, -1, 1, 1577836800000000, 1577836800123456, -2208988800000000, 253402300799999999, 951782400000000, 86399999999]
+F32 = ["0", "-0", "1", "-1", "0.5", "0.011", "-0.043", "1e-3", "3.4028235e38", "1e-45", "nan", "inf", "-inf", "16777216", "0.1"]
+
+
+def gen_other(rng, t, kind):
+    """a non-NULL cell of one of the non-string, non-number kinds"""
+    if t == "b":
+        return rng.random() < 0.5
+    if t == "d":
+        return rng.choice(DAYS) if rng.random() < 0.7 else rng.randint(-800000, 3000000)
+    if t == "ts":
+        return rng.choice(MICROS) if rng.random() < 0.7 else rng.randint(-4 * 10**18, 4 * 10**18) // 1000
+    if t == "bin":
+        return [rng.choice([0, 10, 13, 34, 44, 65, 127, 128, 255, rng.randrange(256)]) for _ in range(rng.choice([0, 1, 2, 5, 12]))]
+    if t == "li":
+        return [None if rng.random() < 0.15 else rng.choice(I64 + [2, 3, 5]) for _ in range(rng.choice([0, 0, 1, 2, 3, 4, 5, 9]))]
+    if t.startswith("fv:"):
+        return [rng.choice(F32) for _ in range(int(t[3:]))]
+    if t == "st":
+        b = None if rng.random() < 0.1 else gen_str(rng, rng.choice(["benign", "adv", "adv", "adv_cr", "nocontrol", "cr"]))
+        return {"a": None if rng.random() < 0.15 else rng.choice(I64), "b": b}
+    raise ValueError(t)
+
+
 def gen_table(rng, kind, quick):
     ncols = rng.choice([1, 1, 2, 3, 4, 6]) if kind != "long" else rng.choice([1, 2])
     nrows = rng.choice([0, 1, 1, 2, 3, 5, 8]) if kind != "long" else rng.choice([1, 2])
@@ -77,7 +103,11 @@ def gen_table(rng, kind, quick):
             cols[rng.randrange(ncols)] = rng.choice(ADV_NAMES)
     else:
         cols = [rng.choice(NAMES) for _ in range(ncols)]
-    types = [rng.choice(["s", "s", "s", "i", "f"]) for _ in range(ncols)]
+    pool = ["s", "s", "s", "i", "f"] + (OTHER_TYPES * 2 if kind == "nested" else OTHER_TYPES if kind in ("benign", "adv", "nocontrol") else [])
+    types = [rng.choice(pool) for _ in range(ncols)]
+    if kind == "nested" and all(t in ("s", "i", "f") for t in types):
+        types[rng.randrange(ncols)] = rng.choice(["li", "fv", "st", "ts", "bin"])
+    types = [f"fv:{rng.choice([1, 2, 3, 4, 5, 8, 384 if not quick else 16])}" if t == "fv" else t for t in types]
     if kind in ("cr", "long", "adv"):
         types[rng.randrange(ncols)] = "s"
     if kind == "nonfinite":
@@ -95,8 +125,10 @@ def gen_table(rng, kind, quick):
                 if kind == "nonfinite" and rng.random() < 0.5:
                     x = rng.choice(NONFINITE)
                 row.append(repr(x))
+            elif t != "s":
+                row.append(gen_other(rng, t, kind))
             else:
-                if kind == "benign" or kind == "header" or kind == "nonfinite":
+                if kind == "benign" or kind == "header" or kind == "nonfinite" or kind == "nested":
                     row.append(gen_str(rng, "benign"))
                 elif kind == "nocontrol":
                     row.append(gen_str(rng, "nocontrol"))
@@ -125,7 +157,23 @@ def gen_table(rng, kind, quick):
     return {"cols": cols, "types": types, "rows": rows, "split": split, "nobatch": False, "kind": kind}
 
 
-KINDS = ["benign", "benign", "nocontrol", "nocontrol", "adv", "adv", "adv", "cr", "header", "nonfinite"]
+KINDS = ["benign", "nested", "nocontrol", "nested", "adv", "adv", "nested", "cr", "header", "nonfinite"]
+
+# one deterministic table with every column kind (two batches, so that the whole-array Debug fallback of Timestamp and
+# Binary differs between batches), and one single-column table per kind whose display text needs quoting
+ALL_KINDS_TABLE = {
+    "cols": ["l", "v", "s", "b", "d", "ts", "bin", "x"], "types": ["li", "fv:3", "st", "b", "d", "ts", "bin", "s"],
+    "rows": [[[1, None, 3], ["0.5", "-1", "1e-3"], {"a": 1, "b": 'p,"q"\nr'}, True, 18262, 1577836800000000, [0, 255, 34], "a"],
+             [[], None, None, None, None, None, None, None],
+             [None, ["1", "2", "3"], {"a": None, "b": None}, False, -1, 0, [], "b"],
+             [[1, 2, 3, 4, 5, 6], ["nan", "inf", "3"], {"a": 7, "b": "\r"}, True, 2932896, -1, [44], "c"]],
+    "split": [2], "nobatch": False, "kind": "nested"}
+PER_KIND_TABLES = [
+    (["l"], ["li"], [[[1, 2, 3]], [[]], [None], [[None]]]), (["v"], ["fv:2"], [[["0.011", "-0.043"]], [None]]),
+    (["v"], ["fv:6"], [[["1", "2", "3", "4", "5", "6"]]]), (["s"], ["st"], [[{"a": 1, "b": "p"}], [{"a": 2, "b": ',"\r\n'}], [None]]),
+    (["b"], ["b"], [[True], [False], [None]]), (["d"], ["d"], [[18262], [None], [-719163]]),
+    (["t"], ["ts"], [[1577836800000000], [None]]), (["t"], ["ts"], [[0]]), (["x"], ["bin"], [[[1, 2]], [None]]),
+]
 
 
 def gen_cases(rng, n, quick):
@@ -140,6 +188,9 @@ def gen_cases(rng, n, quick):
     ]:
         cases.append({"cols": cols, "types": types, "rows": rows, "split": [], "nobatch": False, "kind": kind})
     cases.append({"cols": ["a"], "types": ["s"], "rows": [], "split": [], "nobatch": True, "kind": "nobatch"})
+    cases.append(dict(ALL_KINDS_TABLE))
+    for cols, types, rows in PER_KIND_TABLES:
+        cases.append({"cols": cols, "types": types, "rows": rows, "split": [], "nobatch": False, "kind": "nested"})
     for i in range(n):
         cases.append(gen_table(rng, KINDS[i % len(KINDS)], quick))
     for _ in range(3 if quick else 12):
@@ -189,21 +240,38 @@ def zlist(l):
     return hexterm(l)
 
 
-def cell_term(c, t, ft):
+def cell_term(c, t, ft, dt):
     if c is None:
         return "CNull"
     if t == "s":
         return f"(CStr {bytes_of_str(c)})"
     if t == "i":
         return f"(CInt {zlit(c)})"
-    return f"(CFloat {bytes_of_str(ft)})"
+    if t == "f":
+        return f"(CFloat {bytes_of_str(ft)})"
+    if t == "b":
+        return f"(CBool {'true' if c else 'false'})"
+    return f"(COther {hexterm(dt)})"       # any other type: the display text the production formatter returned
 
 
 def table_term(c, o):
     cols = "[" + "; ".join(bytes_of_str(h) for h in c["cols"]) + "]"
-    rows = "[" + "; ".join("[" + "; ".join(cell_term(x, t, ft) for x, t, ft in zip(r, c["types"], fr)) + "]"
-                           for r, fr in zip(c["rows"], o["ftext"])) + "]"
+    rows = "[" + "; ".join("[" + "; ".join(cell_term(x, t, ft, dt) for x, t, ft, dt in zip(r, c["types"], fr, dr)) + "]"
+                           for r, fr, dr in zip(c["rows"], o["ftext"], o["dtext"])) + "]"
     return f"(mkTable {cols} {rows})"
+
+
+def shown(x, t, ft, dt):
+    """the displayed text of a non-NULL cell"""
+    if t == "s":
+        return x
+    if t == "i":
+        return str(x)
+    if t == "f":
+        return ft
+    if t == "b":
+        return "true" if x else "false"
+    return bytes(dt).decode("utf-8")
 
 
 def case_term(c, o):
@@ -232,9 +300,8 @@ def py_csv_ok(c, o):
     if len(c["cols"]) == 1:
         got = [r if r != [] else [""] for r in got]     # the csv module drops the one empty field of a blank line
     want = [list(c["cols"])]
-    for r, fr in zip(c["rows"], o["ftext"]):
-        want.append(["" if x is None else (x if t == "s" else (str(x) if t == "i" else ft))
-                     for x, t, ft in zip(r, c["types"], fr)])
+    for r, fr, dr in zip(c["rows"], o["ftext"], o["dtext"]):
+        want.append(["" if x is None else shown(x, t, ft, dt) for x, t, ft, dt in zip(r, c["types"], fr, dr)])
     return got == want
 
 
@@ -253,10 +320,10 @@ def py_json_ok(c, o):
     if c["nobatch"]:
         return got == []
     want = []
-    for r, fr in zip(c["rows"], o["ftext"]):
+    for r, fr, dr in zip(c["rows"], o["ftext"], o["dtext"]):
         want.append([(h, None if x is None or (t == "f" and ft in NONFINITE_TEXT) else
-                      (x if t == "s" else ("num", str(x) if t == "i" else ft)))
-                     for h, x, t, ft in zip(c["cols"], r, c["types"], fr)])
+                      (bool(x) if t == "b" else ("num", shown(x, t, ft, dt)) if t in ("i", "f") else shown(x, t, ft, dt)))
+                     for h, x, t, ft, dt in zip(c["cols"], r, c["types"], fr, dr)])
     return got == want
 
 
@@ -267,7 +334,8 @@ def evaluate(ctx, tables):
     big = [i for i, t in enumerate(terms) if len(t) > 20000]          # very long cells: one coqc each, in parallel
     small = [i for i in range(len(terms)) if len(terms[i]) <= 20000]
     vals = [None] * len(terms)
-    for idx, tag, shard in ((small, "c40", 40), (big, "c40big", 1)):
+    # at most 5 coqc processes at a time
+    for idx, tag, shard in ((small, "c40", max(40, -(-len(small) // 5))), (big, "c40big", max(1, -(-len(big) // 5)))):
         for i, v in zip(idx, vlib.coq_eval_list(REQ, PRELUDE, [terms[i] for i in idx], tag, shard=shard)):
             vals[i] = v
     cases, eq, ok, impl = [], [], [], []
@@ -288,6 +356,7 @@ def evaluate(ctx, tables):
 def nontrivial(c):
     return bool(c["rows"]) and any(isinstance(x, str) and t == "s" and any(ch in x for ch in ',"\n\r\t\\') or
                                    (isinstance(x, str) and t == "s" and any(ord(ch) > 127 or ord(ch) < 32 for ch in x))
+                                   or (x is not None and (t in ("li", "st", "ts", "bin") or t.startswith("fv:")))
                                    for r in c["rows"] for x, t in zip(r, c["types"]))
 
 
@@ -316,6 +385,19 @@ def run(ctx):
         "null_cells": sum(1 for c in tables for r in c["rows"] for x in r if x is None),
         "cells": sum(len(r) for c in tables for r in c["rows"]),
     }
+    kinds_of = lambda t: "fv" if t.startswith("fv:") else t
+    per_kind, need_quote = {}, {}
+    for c, o in zip(tables, outs):
+        for r, dr in zip(c["rows"], o.get("dtext", [])):
+            for x, t, dt in zip(r, c["types"], dr):
+                if x is None:
+                    continue
+                k = kinds_of(t)
+                per_kind[k] = per_kind.get(k, 0) + 1
+                if dt is not None and any(b in (44, 34, 10, 13) for b in dt):
+                    need_quote[k] = need_quote.get(k, 0) + 1
+    ctx.cov["input_distribution"]["non_null_cells_per_column_kind"] = per_kind
+    ctx.cov["input_distribution"]["cells_whose_display_text_needs_csv_quoting_per_kind"] = need_quote
     fl = [(x, ft) for c, o in zip(tables, outs) for r, fr in zip(c["rows"], o.get("ftext", [])) for x, t, ft in zip(r, c["types"], fr)
           if t == "f" and x is not None]
     ctx.cov["input_distribution"]["float_cells"] = len(fl)
@@ -327,7 +409,8 @@ def run(ctx):
     if not proved and not ctx.violations:
         ctx.proof_broken_violation(f"{len(cases)} generated (table, format) instances, none violates the executable specs")
     return ctx.finish(
-        rule="tables of 1-6 columns (Utf8 / Int64 / Float64, NULLs) x 0-8 rows split over 1-5 record batches, each judged once for "
+        rule="tables of 1-6 columns (Utf8 / Int64 / Float64 / Boolean / Date32 / Timestamp(us) / Binary / List<Int64> / "
+             "FixedSizeList<Float32> / Struct{Int64, Utf8 with adversarial text}, NULLs, NULL list elements, empty lists) x 0-8 rows split over 1-5 record batches, each judged once for "
              "CSV and once for JSON; streams: benign, no-control adversarial (commas, quotes, backslashes, non-ASCII, spaces), "
              "adversarial (LF, CRLF, tabs, other control characters, leading/trailing blanks, empty strings), bare-CR cells, "
              "adversarial column names, non-finite floats, very long cells, no batch at all, plus the minimal witnesses of every "
@@ -340,6 +423,9 @@ def run(ctx):
                      "the harness compiles /repo/src/cli/output.rs into its own binary (#[path] include) and calls "
                      "OutputFormatter::write, the function `print` (REPL, src/main.rs) forwards to with stdout",
                      "strings are valid UTF-8 (Rust String); the parsers do not re-validate UTF-8",
+                     "a cell of any type other than Utf8 / Int64 / Float64 / Boolean enters the model as the text the production "
+                     "format_display_value returns for it (read off the production Vertical writer on the same batches); C40 "
+                     "is about that displayed text surviving CSV / JSON, not about the text being a good rendering",
                      "RFC 4180 TEXTDATA is read liberally: any byte except comma, DQUOTE, CR, LF may appear unquoted"])
 
 
